@@ -211,6 +211,10 @@ def strip_targs(s):
 
 
 _COMMUTATIVE = ("+", "*", "==", "!=")
+_VIEW_ACCESSORS = {"matrix", "vector", "array", "tensor", "data", "begin", "end", "cbegin", "cend", "reshape", "slice", "block", "row", "col", "segment", "head",
+                   "tail", "transpose", "size", "rows", "cols", "dims"}
+_ARITH_TYPES = {"bool", "char", "signed char", "unsigned char", "short", "unsigned short", "int", "unsigned int", "long", "unsigned long", "long long",
+                "unsigned long long", "float", "double"}
 
 
 class Function:
@@ -303,11 +307,17 @@ class Function:
                     ti = r_.index("then") if r_ and "then" in r_ else (1 if x["k"] == "cond" else None)
                     ei = r_.index("else") if r_ and "else" in r_ else (2 if x["k"] == "cond" and len(cs) == 3 else None)
                     if ci is not None and ti is not None and ei is not None and ci < len(cs) and ei < len(cs) and cs[ci] is not None and cs[ti] is not None and cs[ei] is not None:
-                        c_, nots = cs[ci], 0
+                        c_, nots, chain = cs[ci], 0, []
                         while c_ is not None and ((c_.get("k") == "un" and c_.get("op") == "!") or c_.get("k") == "paren") and c_.get("c"):
+                            chain.append(c_)
                             nots += c_.get("k") == "un"
                             c_ = c_["c"][0]
                         if nots and c_ is not None:
+                            # the CFG refers to the dropped `!` / paren nodes by id: remember what each of them stood for (node, number of negations)
+                            left = nots
+                            for q in chain:
+                                self._stripped[q["i"]] = (c_, left)
+                                left -= q.get("k") == "un"
                             cs[ci] = c_
                             if nots % 2:
                                 cs[ti], cs[ei] = cs[ei], cs[ti]
@@ -318,6 +328,7 @@ class Function:
                     stack.append((ch, x))
 
         self._nodes, self._parent = nodes, parent
+        self._stripped = {}
         commutative = []
         for i in self._inits:
             visit(i)
@@ -406,6 +417,14 @@ class Function:
                     if cs:
                         mark(cs[0], depth + 1)
                     return
+                if k == "bin" and n.get("op") in ("+", "-") and len(n.get("c", ())) == 2:
+                    # pointer / iterator arithmetic: the offset operand (a value of arithmetic type) is only read
+                    for c_ in n["c"]:
+                        t_ = ((c_ or {}).get("t") or "").replace("const ", "").strip()
+                        if t_ in _ARITH_TYPES:
+                            continue
+                        mark(c_, depth + 1)
+                    return
                 for y in walk(n):
                     if y.get("k") == "ref" and y.get("d") is not None:
                         written.add(y["d"])
@@ -422,8 +441,8 @@ class Function:
                         pk = x.get("pk", "")
                         cs = x.get("c", ())
                         off = 1 if k == "call" and (x.get("ck") == "mem" or (x.get("ck") == "op" and x.get("memop"))) else 0
-                        if off and not x.get("cconst") and cs and cs[0] is not None:
-                            mark(cs[0])
+                        if off and not x.get("cconst") and cs and cs[0] is not None and strip_targs(x.get("fn", "")).split("::")[-1] not in _VIEW_ACCESSORS:
+                            mark(cs[0])         # (a view accessor does not write by itself; writing through the view is an assignment / by-reference use)
                         if k == "call" and x.get("ck") == "op" and x.get("op", "").endswith("=") and x["op"] not in ("==", "!=", "<=", ">=") and cs and cs[0] is not None:
                             mark(cs[0])
                         for j, a_ in enumerate(cs[off:]):
